@@ -50,7 +50,7 @@ FreshSyms(tmpl, M) == {FreshName(occ, b) : occ \in Occ(M), b \in Labels(tmpl)}
 
 Solutions0(X, op) ==
   IF op.form \in {"insert_data", "delete_data"} THEN UnitBag
-  ELSE Eval(X, op.where, DefaultView(X), "")
+  ELSE IF "sideways" \in X.lenient THEN EvalS(X, op.where, DefaultView(X), "", UnitBag) ELSE Eval(X, op.where, DefaultView(X), "")
 
 Effect(X, op) ==
   LET M == Solutions0(X, op)
